@@ -484,6 +484,28 @@ func c19Quoting(c *Ctx, p *Prog) {
 	// trigger set of the quoting function: ContainsAny constant, or a predicate closure
 	trigger := map[string]bool{}
 	fns := append([]*ssa.Function{quote}, quote.AnonFuncs...)
+	// the quoting may have been moved into a helper of the package
+	var helpers []*ssa.Function
+	eachInstr(quote, func(_ *ssa.BasicBlock, in ssa.Instruction) {
+		if call, ok := in.(*ssa.Call); ok {
+			if sc := call.Call.StaticCallee(); sc != nil && sc.Blocks != nil && sc.Pkg == quote.Pkg && sc != quote {
+				helpers = append(helpers, sc)
+				fns = append(fns, sc)
+				fns = append(fns, sc.AnonFuncs...)
+			}
+		}
+	})
+	isQuoteFn := func(f *ssa.Function) bool {
+		if f == quote {
+			return true
+		}
+		for _, h := range helpers {
+			if h == f {
+				return true
+			}
+		}
+		return false
+	}
 	for _, f := range fns {
 		eachInstr(f, func(_ *ssa.BasicBlock, in ssa.Instruction) {
 			call, ok := in.(*ssa.Call)
@@ -499,7 +521,7 @@ func c19Quoting(c *Ctx, p *Prog) {
 				}
 			}
 			if objIs(co, "strings", "", "Contains") || objIs(co, "strings", "", "ContainsRune") {
-				if s, ok := constString(call.Call.Args[1]); ok && f == quote && len(s) == 1 && !strings.Contains(s, "|") {
+				if s, ok := constString(call.Call.Args[1]); ok && isQuoteFn(f) && len(s) == 1 && !strings.Contains(s, "|") {
 					trigger[s] = true
 				}
 			}
@@ -507,7 +529,7 @@ func c19Quoting(c *Ctx, p *Prog) {
 				trigger[" "], trigger["\t"] = true, true
 			}
 		})
-		if f != quote {
+		if !isQuoteFn(f) {
 			cs, _ := runeConsts(f)
 			for k := range cs {
 				trigger[k] = true
@@ -525,15 +547,17 @@ func c19Quoting(c *Ctx, p *Prog) {
 		fmt.Sprintf("a value containing %s is emitted unquoted although the word splitter treats it specially (special bytes %s, quoting trigger %s): the splitter eats or splits it and the stored record is not found", strings.Join(missing, ", "), setStr(special), setStr(trigger)))
 	// escapes: Replace(`\`, `\\`) before Replace(`"`, `\"`)
 	var repl [][2]string
-	eachInstr(quote, func(_ *ssa.BasicBlock, in ssa.Instruction) {
-		if call, ok := in.(*ssa.Call); ok && (objIs(calleeObj(&call.Call), "strings", "", "Replace") || objIs(calleeObj(&call.Call), "strings", "", "ReplaceAll")) {
-			a, ok1 := constString(call.Call.Args[1])
-			b, ok2 := constString(call.Call.Args[2])
-			if ok1 && ok2 {
-				repl = append(repl, [2]string{a, b})
+	for _, qf := range append([]*ssa.Function{quote}, helpers...) {
+		eachInstr(qf, func(_ *ssa.BasicBlock, in ssa.Instruction) {
+			if call, ok := in.(*ssa.Call); ok && (objIs(calleeObj(&call.Call), "strings", "", "Replace") || objIs(calleeObj(&call.Call), "strings", "", "ReplaceAll")) {
+				a, ok1 := constString(call.Call.Args[1])
+				b, ok2 := constString(call.Call.Args[2])
+				if ok1 && ok2 {
+					repl = append(repl, [2]string{a, b})
+				}
 			}
-		}
-	})
+		})
+	}
 	okEsc := len(repl) == 2 && repl[0] == [2]string{`\`, `\\`} && repl[1] == [2]string{`"`, `\"`}
 	c.Check(okEsc, R, "quote-escapes", p.pos(quote.Pos()), "backslash is doubled first, then the quote is escaped", fmt.Sprintf("inside quotes the front end escapes %v; the splitter undoes exactly backslash-escapes, so backslash must be doubled first and then the quote escaped", repl))
 }
